@@ -466,11 +466,19 @@ def construct_rules(chk):
             chk.bad(rule, name, "keyword arguments are %s, not ** of the remaining items" % [show(s) for s in stars], node=fi.node, stmt="kwargs")
             ok = False
         # the merged mapping contains the given mapping and the extra keywords
-        if recv[0] == "dict":
-            parts = [val for k, val in recv[1] if k is None]
+        rs = strip_sites(recv)
+        if rs[0] == "dict":
+            parts = [val for k, val in rs[1] if k is None]
             if parts != [("sym", "mapping"), ("sym", "kwargs")]:
                 chk.bad(rule, name, "the constructor mapping is merged from %s (required: the mapping, then the extra keywords)" % [show(p) for p in parts], node=fi.node, stmt="merge")
                 ok = False
+        elif rs[0] == "comp":
+            conds = [c for g in rs[3] for c in g[2]]
+            if conds:
+                chk.bad(rule, name, "the items handed to the factory are filtered (%s): a configured value that matches the filter -- an explicit null, an empty or zero value -- is dropped and the factory's default is used instead of what the configuration says" % "; ".join(show(c) for c in conds), node=fi.node, stmt="items-filtered")
+                ok = False
+            else:
+                chk.undecided(rule, name, "the constructor mapping is rebuilt by %s" % show(rs), node=fi.node, aux=True)
         calls = [e for e in o.path.events if e[0] == "call" and e[1] == v]
         if len(calls) != 1:
             chk.bad(rule, name, "the factory is called %d times" % len(calls), node=fi.node, stmt="factory-count")
